@@ -82,9 +82,16 @@ def finish(ctx, mod, replaying=False, no_evidence=False):
     confirmed = []
     if not replaying:
         for v in new:
-            c2 = core.Ctx(ctx.prop, ctx.tier, ctx.seed)
-            mod.replay(c2, json.loads(json.dumps(v['case'], default=repr)))
-            if not any(w['sig'] == v['sig'] for w in c2.violations):
+            # (retried: code under test may depend on object addresses, e.g. iteration over a set of instances)
+            reproduced = False
+            for attempt in range(8):
+                c2 = core.Ctx(ctx.prop, ctx.tier, ctx.seed)
+                mod.replay(c2, json.loads(json.dumps(v['case'], default=repr)))
+                if any(w['sig'] == v['sig'] for w in c2.violations):
+                    reproduced = True
+                    break
+                junk = [object() for _ in range(1 + 37 * attempt)]   # shift allocation addresses between attempts
+            if not reproduced:
                 sys.stderr.write('HARNESS ERROR: violation %s did not reproduce on '
                                  'replay: %s\n' % (v['sig'], json.dumps(v['case'], default=repr)[:2000]))
                 return 2
